@@ -567,9 +567,9 @@ def weave_item(repo, spec):
         # delete `for PAT in` (kept inside a marker so that the erasure check can restore it)
         add_before(lk, '/*R4x<*/')
         add_after(j, '/*>R4x*/')
-        add_after(j, '/*R4a<*/{ let mut %s = /*>R4a*/' % nm)
+        add_after(j, '/*R4a<*/{ let mut %s = core::iter::IntoIterator::into_iter(/*>R4a*/' % nm)
         # after EXPR (before ghost header / body open): `; loop`
-        ins_before.setdefault(lb, []).insert(0, '/*R4b<*/; loop /*>R4b*/')
+        ins_before.setdefault(lb, []).insert(0, '/*R4b<*/); loop /*>R4b*/')
         r4c[lb] = '/*R4c<*/{ match %s.next() { Some(/*>R4c*//*R4p<*/%s/*>R4p*//*R4d<*/) => /*>R4d*/' % (nm, pat_txt)
         add_after(le, '/*R4e<*/ None => break, } } }/*>R4e*/')
         rules['R4'] += 1
@@ -943,11 +943,12 @@ def erase_check(repo, woven, items):
                     r4_pat.append(st[1:-1])
                 elif otag == 'R4a<' and tag == '>R4a':
                     st = [t.text for t in tokenize(seg)]
-                    if not (len(st) == 5 and st[:3] == ['{', 'let', 'mut'] and st[4] == '=' and re.fullmatch(r'[A-Za-z_]\w*', st[3])):
+                    if not (len(st) == 16 and st[:3] == ['{', 'let', 'mut'] and st[4] == '=' and re.fullmatch(r'[A-Za-z_]\w*', st[3])
+                            and ''.join(st[5:]) == 'core::iter::IntoIterator::into_iter('):
                         raise Undecided('erasure: bad R4a segment %r in %s' % (seg, spec.name))
                     r4_name.append(st[3])
                 elif otag == 'R4b<' and tag == '>R4b':
-                    if [t.text for t in tokenize(seg)] != [';', 'loop']:
+                    if [t.text for t in tokenize(seg)] != [')', ';', 'loop']:
                         raise Undecided('erasure: bad R4b segment %r in %s' % (seg, spec.name))
                 elif otag == 'R4c<' and tag == '>R4c':
                     st = [t.text for t in tokenize(seg)]
